@@ -138,6 +138,8 @@ m("c18-revert-F4", None, "selftest/reverts/F4.patch", None, ["C18"])
 # ---- C20
 BB = "src/bin/aisparser.rs"
 m("c20-revert-F7", None, "selftest/reverts/F7.patch", None, ["C20"])
+n("n-c20-for-loop", BB, ["        handle\n            .split(b'\\n')\n            .map(|line| line.unwrap())\n            .for_each(|line| {\n", "                });\n            });\n"], ["        for line in handle.split(b'\\n').map(|line| line.unwrap()) {\n", "                });\n            }\n"], ["C20"])
+m("c20-for-loop-break-on-error", BB, ["        handle\n            .split(b'\\n')\n            .map(|line| line.unwrap())\n            .for_each(|line| {\n                parse_nmea_line(&mut parser, &line).unwrap_or_else(|err| {", "                });\n            });\n"], ["        for line in handle.split(b'\\n').map(|line| line.unwrap()) {\n                if let Err(err) = parse_nmea_line(&mut parser, &line) {", "                    break;\n                }\n            }\n"], ["C20"])
 n("n-c20-map-err-form", BB, "parse_nmea_line(&mut parser, &line).unwrap_or_else(|err| {", "let _ = parse_nmea_line(&mut parser, &line).map_err(|err| {", ["C20"])
 m("c20-unwrap-line-result", BB, ["                parse_nmea_line(&mut parser, &line).unwrap_or_else(|err| {\n                    eprintln!(\n                        \"{:?}\\t{:?}\",\n                        lib::std::string::String::from_utf8_lossy(&line),\n                        err\n                    );\n                });"], ["                parse_nmea_line(&mut parser, &line).unwrap();"], ["C20"])
 m("c20-print-on-incomplete", BB, "    if let AisFragments::Complete(sentence) = sentence {", "    let sentence = match sentence { AisFragments::Complete(s) => AisFragments::Complete(s), AisFragments::Incomplete(s) => AisFragments::Complete(s) };\n    if let AisFragments::Complete(sentence) = sentence {", ["C20"])
@@ -187,7 +189,7 @@ def main():
                 continue
             tmp = tempfile.mkdtemp(prefix="aismut.")
             try:
-                run("cd /repo && git archive HEAD | tar -x -C %s && cp -r .git %s/.git" % (tmp, tmp))
+                run("cd /repo && git archive HEAD | tar -x -C %s && cp -r .git %s/.git && cp Cargo.lock %s/Cargo.lock" % (tmp, tmp, tmp))
                 ok, msg = apply(tmp, file, old, new)
                 if not ok:
                     results.append((name, "SETUP-FAIL " + msg))
